@@ -367,6 +367,9 @@ func ifaceMethodKey(it types.Type, m string) (string, string) {
 		}
 		// find the embedded interface that declares the method
 		short := n.Obj().Name() + "." + m
+		if pkg == "" {
+			pkg = "builtin" // the predeclared error interface
+		}
 		return pkg + "." + short, short
 	}
 	return "anon.iface." + m, "iface." + m
@@ -682,7 +685,11 @@ func (v *FnVC) builtin(b *ssa.Builtin, c *ssa.CallCommon, val ssa.Value, pos tok
 		return Term{}
 	case "recover":
 		if g, ok := v.w.cs.Ghosts["panicking"]; ok {
-			return Term{v.get(v.w.ghostKey(g)), rt}
+			// recover returns the value in flight and stops the panic
+			key := v.w.ghostKey(g)
+			cur := v.get(key)
+			v.set(key, v.heapSort(key), "0")
+			return Term{cur, rt}
 		}
 		n := v.fresh("recovered")
 		v.declare(n, "Int")
